@@ -98,4 +98,54 @@ def stage_c05(ctx, base_env):
         c05_pipeline(ctx, base_env, "b%d" % b, env)
 
 
-STAGES = {"c05": stage_c05}
+def c14_pipeline(ctx, base_env, tag, extra_env):
+    m = _imp()
+    pid, work = ctx["pid"], ctx["work"]
+    pkgdir = os.path.join(work.dir, "c14pkg")
+    if os.path.isdir(pkgdir):
+        import shutil
+        shutil.rmtree(pkgdir)
+    env = dict(base_env, VERIF_C14="1", VERIF_SHARD=tag)
+    env.update(extra_env)
+    rc, out = m.run_binary(ctx["binary"], "TestC14Emit", env, [], timeout=1800)
+    if rc != 0 or "EMITTED" not in out:
+        ctx["inconcl"].append("C14 emit stage failed")
+        m.log(out[-3000:])
+        return
+    if "EMITTED 0 grammars" in out:
+        return
+    testbin = os.path.join(work.dir, "c14-%s.test" % tag)
+    rel = "./" + os.path.relpath(pkgdir, HARNESS)
+    rc, out = m.run(["go", "test", "-c", "-o", testbin, rel], cwd=HARNESS, timeout=1800)
+    if rc != 0:
+        ctx["inconcl"].append("emitted grammar package does not compile (harness renderer bug or /repo does not compile)")
+        m.log(out[-3000:])
+        return
+    pf = os.path.join(work.dir, "c14-%s.json" % tag)
+    env = dict(m.GOENV)
+    env.update(base_env)
+    env.update({"VERIF_OUT": pf, "VERIF_SHARD": tag})
+    rc, out = m.run([testbin, "-test.run", "^TestRun$", "-test.timeout", "0", "-test.v"], env=env, cwd=pkgdir,
+                    timeout=ctx["tconf"].get("timeout", 1800))
+    v, k, notes = m.parse_verdict_lines(out)
+    m.handle_output(pid, rc, out, v, k, notes, ctx["violations"], ctx["known_lines"], ctx["inconcl"], "C14 batch " + tag)
+    if os.path.exists(pf):
+        ctx["partials"].append(pf)
+
+
+def stage_c14(ctx, base_env):
+    tconf = ctx["tconf"]
+    if ctx.get("replay_file"):
+        c14_pipeline(ctx, base_env, "replay", {"VERIF_C14_REPLAY": ctx["replay_file"]})
+        return
+    rdir = os.path.join(ROOT, "replays", ctx["pid"])
+    if glob.glob(os.path.join(rdir, "*.json")) or glob.glob(os.path.join(rdir, "known", "*.json")):
+        c14_pipeline(ctx, base_env, "replay", {"VERIF_C14_REPLAY": rdir})
+    for b in range(tconf.get("batches", 1)):
+        if ctx["violations"]:
+            break
+        env = {"VERIF_C14_GRAMMARS": str(tconf.get("grammars", 150)), "VERIF_SEED": str(ctx["seed"] * 100 + b)}
+        c14_pipeline(ctx, base_env, "b%d" % b, env)
+
+
+STAGES = {"c05": stage_c05, "c14": stage_c14}
